@@ -146,6 +146,8 @@ class Check(BaseCheck):
         for i in range(k):
             specs.append({'campaign': 'strings', 'seed': seed, 'n': 1800 if q else 90000, 'i': i})
             specs.append({'campaign': 'arities', 'seed': seed, 'names': names[i::k], 'sampled': 40 if q else 3000, 'core_only': q})
+        for i in range(8):
+            specs.append({'campaign': 'scaling', 'i': i, 'k': 8, 'reps': [4, 8, 12, 16, 20, 22, 24, 26] if q else [4, 8, 12, 16, 18, 20, 21, 22, 23, 24, 25, 26, 28]})
         for i in range(8 if q else 16):
             specs.append({'campaign': 'faults', 'seed': seed, 'i': i, 'n': 6 if q else 60})
         return specs
@@ -289,6 +291,44 @@ class Check(BaseCheck):
                 rec.sample({'kind': kind, 'formula': f[:80].encode('unicode_escape').decode('ascii')}, k=10)
         finally:
             sys.stderr = old
+
+    # ------------------------------------------------------------------ 1b. cost must not explode with input length
+    PREFIXES = ['', '"', "'", 'SUM(1,"', "SUM(1,'", '#', '$', 'A', '1', '.', '"a"&"', '{"', '1+', 'A1:', 'x.']
+    UNITS = ['\\"', "\\'", '\\\\', '\\d', '\\x', 'a', 'Z', '1', '#', '"', "'", '""', "''", ' ', '.', '$', 'A1', ':', '%', '^1', '&', '(', '{', ',', ';', '\\', u'\xe9', '\t', '1.', '_',
+             'a.', '.a', 'E1', 'a1', '$A', '/', '!', '?', '#N/A', '\\"a', 'ab\\']
+    SUFFIXES = ['', '"', "'", ')', '(', '!', '\\', 'x']
+    CPU_LIMIT = 1.0      # CPU-seconds of this thread for an input of at most ~110 characters (linear lexing needs ~1e-4 s)
+
+    def c_scaling(self, spec, rec):
+        """A unit repeated k times inside a (possibly unterminated) token.  The step counter sees Python-level work; C-level
+        work (the regex engine of the lexer) is measured in *thread CPU time*, which does not depend on machine load: an input
+        of ~100 characters that burns a CPU-second is not 'bounded time'.  k grows slowly so that an exponential is caught at
+        about one second, long before it could hang the run."""
+        import time
+        p = self.mkparser()
+        combos = [(a, u, z) for a in self.PREFIXES for u in self.UNITS for z in self.SUFFIXES]
+        for n, (a, u, z) in enumerate(combos):
+            if n % spec['k'] != spec['i']:
+                continue
+            prev = None
+            for k in spec['reps']:
+                f = a + u * k + z
+                if len(f) > 130:
+                    break
+                t0 = time.thread_time()
+                got = self.guarded(p, f, 8, {'kind': 'scaling', 'unit': u, 'k': k})
+                dt = time.thread_time() - t0
+                if got is not None and got[1]:
+                    rec.nt(f)
+                rec.count('scaling_inputs')
+                if dt > rec.series.get('max_cpu_seconds_short_input', 0):
+                    rec.series['max_cpu_seconds_short_input'] = round(dt, 4)
+                if dt > self.CPU_LIMIT:
+                    rec.violation('C01/cpu-time-not-bounded-by-input-length', formula=f, length=len(f), repetitions=k, cpu_seconds=round(dt, 3),
+                                  previous=prev, unit=u, prefix=a)
+                    break
+                prev = (k, round(dt, 4))
+        rec.sample({'formula': '"' + '\\"' * 8, 'what': 'unit repeated k times inside an unterminated token; thread CPU time measured'})
 
     # ------------------------------------------------------------------ 2. functions x arities
     def c_arities(self, spec, rec):
